@@ -31,6 +31,7 @@ def main():
     tier = arg("--tier", "quick")
     checks = (arg("--checks") or prop).split(",")
     ks = sorted(int(f.split("_")[1].split(".")[0]) for f in os.listdir(out) if f.startswith("patch_") and f.endswith(".diff"))
+    offset = int(arg("--offset", "0"))  # round 2 outputs are stored as <PROP>-<k+offset>
     only = arg("--only")
     if only:
         ks = [k for k in ks if str(k) in only.split(",")]
@@ -38,17 +39,18 @@ def main():
         patch = os.path.join(out, f"patch_{k}.diff")
         demo = os.path.join(out, f"demo_{k}.py")
         notes = os.path.join(out, f"notes_{k}.md")
-        wt = f"/tmp/ev_{prop}_{k}"
+        kk = k + offset
+        wt = f"/tmp/ev_{prop}_{kk}"
         sh(["git", "-C", "/repo", "worktree", "remove", "--force", wt])
         shutil.rmtree(wt, ignore_errors=True)
         r = sh(["git", "-C", "/repo", "worktree", "add", "-q", "--detach", wt, "HEAD"])
-        meta = {"property": prop, "k": k, "source": "independent sub-agent given only the property text and a scratch worktree"}
+        meta = {"property": prop, "k": kk, "round": 1 + (offset > 0), "source": "independent sub-agent given only the property text and a scratch worktree"}
         try:
             env = dict(os.environ, PYTHONPATH=wt)
             clean_demo = sh([PY, demo], cwd=wt, env=env, timeout=600)
             r = sh(["git", "-C", wt, "apply", patch])
             if r.returncode != 0:
-                print(f"{prop}-{k}: patch does not apply: {r.stderr[:300]}")
+                print(f"{prop}-{kk}: patch does not apply: {r.stderr[:300]}")
                 continue
             t = sh([PY, "-m", "pytest", "-q", "-p", "no:cacheprovider"], cwd=wt, env=env, timeout=1200)
             tests_ok = t.returncode == 0
@@ -60,7 +62,7 @@ def main():
             results = {}
             for c in checks:
                 env2 = dict(os.environ, VERIF_REPO=wt, VERIF_SCALE=scale, VERIF_NO_RESAMPLE="1",
-                            VERIF_EVIDENCE_DIR=f"/tmp/ev_{prop}_{k}_evidence", VERIF_REPLAY_DIR=f"/tmp/ev_{prop}_{k}_replays")
+                            VERIF_EVIDENCE_DIR=f"/tmp/ev_{prop}_{kk}_evidence", VERIF_REPLAY_DIR=f"/tmp/ev_{prop}_{kk}_replays")
                 t0 = time.monotonic()
                 p = sh([PY, "-m", "dst", "check", c, "--tier", tier], cwd="/verif", env=env2, timeout=7200)
                 kinds = sorted({ln.strip().split(":")[0] for ln in p.stdout.splitlines() if ln.startswith("  ") and ": {" in ln})
@@ -70,7 +72,7 @@ def main():
                 if verdict == "harness-error":
                     results[c]["tail"] = p.stdout.splitlines()[-12:]
                 # keep one minimised replay as illustration
-                rd = f"/tmp/ev_{prop}_{k}_replays"
+                rd = f"/tmp/ev_{prop}_{kk}_replays"
                 if os.path.isdir(rd):
                     for f in sorted(os.listdir(rd))[:1]:
                         try:
@@ -79,12 +81,12 @@ def main():
                         except Exception:
                             pass
                 shutil.rmtree(rd, ignore_errors=True)
-                shutil.rmtree(f"/tmp/ev_{prop}_{k}_evidence", ignore_errors=True)
+                shutil.rmtree(f"/tmp/ev_{prop}_{kk}_evidence", ignore_errors=True)
             meta["checks"] = results
-            print(f"{prop}-{k}: confirmed={confirmed} tests_pass={tests_ok} demo with/without={d.returncode}/{clean_demo.returncode} -> "
+            print(f"{prop}-{kk}: confirmed={confirmed} tests_pass={tests_ok} demo with/without={d.returncode}/{clean_demo.returncode} -> "
                   + ", ".join(f"{c}:{v['verdict']}{v['violation_kinds'][:2]}" for c, v in results.items()), flush=True)
             if confirmed:
-                dst = f"/verif/seeded/{prop}-{k}"
+                dst = f"/verif/seeded/{prop}-{kk}"
                 os.makedirs(dst, exist_ok=True)
                 shutil.copy(patch, os.path.join(dst, "patch.diff"))
                 shutil.copy(demo, os.path.join(dst, "demo.py"))
